@@ -99,7 +99,10 @@ def rand_case(rng, max_o, max_s, max_f, p_incons=0.15, p_pres=0.15):
         if orders:
             pres = rng.choice(orders)
     c = dict(rng.choice(GRID)) if rng.random() < 0.6 else R.rand_costs(rng)
-    return {"S": S, "O": O, "costs": c, "pres": pres}
+    case = {"S": S, "O": O, "costs": c, "pres": pres}
+    if rng.random() < 0.25:   # same input object solved before under other costs (see recon.primed)
+        case["prime"] = R.rand_costs(rng, coherent_only=False)
+    return case
 
 
 def _solvers():
@@ -109,7 +112,8 @@ def _solvers():
 
 
 def _input(case):
-    B = R.Built(case["S"], case["O"], case["costs"], labelled=True)
+    M, RP = _solvers()
+    B = R.primed(case, lambda i: M.sreconcile_extended_spfs(i, RP.ALL), labelled=True)
     if case.get("pres") is not None:
         B.input.leaf_syntenies[B.otree] = [R.fam_name(f) for f in case["pres"]]
     return B
